@@ -57,8 +57,24 @@ CLAIMED = {
    tech="TLC enumerates statement shapes and computes Managed(shape) (AgentGen ShapeCases); agent binary vs fakes with nothing installed; AgentTrace.tla: updated set = managed set, expression used = annotation",
    text="768 shapes: active absent/true/false x 8 comment forms x 4 bodies x attribute order x duplicated xmlns:jcmd x unrelated attribute, names with escaped characters; one shape per router next to control statements.",
    note="Managed() in AgentGen.tla is the oracle"),
+ "C11": dict(engine="rpsl", cat="model_checking",
+   tech="Rpsl.tla (RECURSIVE Eval, member closure as least fixpoint) is the oracle; TLC enumerates database options and expression leaves (RpslGen.tla); the real bgpfu command and the agent binary evaluate (database, expression) cases against the fake IRRd; RpslTrace.tla recomputes Eval for every result",
+   text="Databases composed from all options of every dimension (as-set membership with cycles, v4-only / v6-only / empty / duplicate routes, nested route-sets, filter-sets) x expression trees (AND, OR, AND NOT, bounded range operators) up to depth 2 (thorough 3); compared as prefix sets over a universe.",
+   note="Rpsl.tla is my transcription of RFC 2622/4012 (trusted); ^+ / ^- not covered; open known finding: complement of a set containing IPv6 prefixes does not terminate (dependency)"),
+ "C17": dict(engine="rpsl", cat="model_checking",
+   tech="seeded histories of evaluations on one real bgpfu::RpslEvaluator with IRR errors injected per evaluation (fake IRRd under harness control); RpslTrace.tla checks result_i = Rpsl!Eval(expr_i, db, errs_i) for every position",
+   text="150 (thorough 1500) histories of 5-6 evaluations; D/E/F errors on as-set, per-AS route, route-set and filter-set queries; partially consumed filter-set responses; the oracle is history-free, so any dependence on earlier evaluations shows.",
+   note="error semantics as designed: as-set query error fails the evaluation, other query errors are sunk"),
+ "C19": dict(engine="daemon", cat="model_checking",
+   tech="TLC model checking of the daemon loop (MCDaemon.tla) for 5 periods and all outcome/signal histories; TLC-enumerated histories (DaemonGen.tla) replayed on the real Loop::start under tokio's paused clock with real signals; DaemonTrace.tla judges every delay, SIGHUP, SIGINT/SIGTERM",
+   text="Periods below, at and above the initial back-off; all outcome sequences of length 4 (thorough 6) incl. runs longer than one and several periods; one signal at the edges of any waiting interval.",
+   note="job outcome scripted through the cfg-guarded hook; the timer/back-off/signal loop is the real one"),
 }
 ENGINES = [
+ {"name": "rpsl", "path": "tools/check_rpsl.py", "serves_properties": ["C11", "C17"],
+  "kind_free_text": "TLC (Rpsl.tla oracle, RpslGen enumerator, RpslTrace judge) + real bgpfu command, library evaluator and agent against the fake IRRd"},
+ {"name": "daemon", "path": "tools/check_daemon.py", "serves_properties": ["C19"],
+  "kind_free_text": "TLC (Daemon.tla, MCDaemon, DaemonGen, DaemonTrace) + real daemon loop under virtual time with real signals (hook bgpfu_junos_agent::verif)"},
  {"name": "agent", "path": "tools/check_agent.py", "serves_properties": ["C01", "C02", "C03", "C04", "C15", "C16"],
   "kind_free_text": "TLC (AgentGen.tla enumerator, Junos.tla reference model, AgentTrace.tla judge) + unmodified agent binary over TLS against fake Junos and fake IRRd (harness/src/fakes.rs, bin/agentrun)"},
  {"name": "framing", "path": "tools/check_framing.py", "serves_properties": ["C06", "C07"],
